@@ -25,7 +25,7 @@ LEVEL_NOTE = "trusted: reference model (plain-Python verdict per test), pytest's
 RULE = ("one run = project (1-2 files, 1-6 tests, 1-6 sites inside test functions or helpers, previous content missing / right / wrong) x flag "
         "configuration x test order; distinct = (operation, flag set, position of the bad site, #tests sharing it, outcome class); non-trivial = at "
         "least one test whose verdict was judged")
-RULE += " Dimensions added while testing against seeded changes: comparisons executed by a worker thread that the test starts and joins; async def tests run by pytest-asyncio as tasks; nested in-process sessions incl. one that stops with a usage error (state-stack invariant); imperative pytest.skip / pytest.xfail after the comparisons; nested in-process sessions; Example-driven tests; numpy-like truth values."
+RULE += " Dimensions added while testing against seeded changes: comparisons executed by a worker thread that the test starts and joins; async def tests run by pytest-asyncio as tasks; nested in-process sessions incl. one that stops with a usage error (state-stack invariant); xfail(condition=False) and xfail('<false expression>') as ordinary tests; imperative pytest.skip / pytest.xfail after the comparisons; nested in-process sessions; Example-driven tests; numpy-like truth values."
 ASSUMPTIONS = ["scope of the statement: snapshots executed inside test functions, copyable values, stable arguments",
                "tests in which a comparison itself raised are not judged", "xfail tests are not judged (they run with a private inactive state)"]
 REAL_VS_STUB = {
